@@ -17,19 +17,23 @@ struct HeapItem {
 
 impl PartialEq for HeapItem {
     fn eq(&self, other: &Self) -> bool {
-        self.context_id == other.context_id
+        self.cmp(other) == std::cmp::Ordering::Equal
     }
 }
 impl Eq for HeapItem {}
 
 impl PartialOrd for HeapItem {
     fn partial_cmp(&self, other: &Self) -> Option<std::cmp::Ordering> {
-        Some(self.context_id.cmp(&other.context_id))
+        Some(self.cmp(other))
     }
 }
 impl Ord for HeapItem {
     fn cmp(&self, other: &Self) -> std::cmp::Ordering {
-        self.context_id.cmp(&other.context_id)
+        // Ties on context_id are broken by cursor order (cursors are loaded oldest zone first),
+        // so rows of one context keep their append order across input zones.
+        self.context_id
+            .cmp(&other.context_id)
+            .then_with(|| self.cursor_index.cmp(&other.cursor_index))
     }
 }
 
